@@ -22,7 +22,9 @@ Checked after EVERY step:
                                           (by value) twice; S6F16 / S6F11 = exactly the linked reports in link order with
                                           the current variable values in the declared value type; never S6F0, never an
                                           exception in a handler thread
-and once more black-box at the end of every history (enable all, S6F15 for every CEID, trigger every CEID).
+and once more black-box at the end of every history that left links behind: disable all -> trigger every linked event ->
+nothing may be sent; enable all -> S6F15 for every linked event and one trigger of every CEID of the domain -> exactly the
+model's event reports.
 
 Where E5 does not decide, the model computes the SET of outcomes of all defensible readings and the implementation has to
 match one of them (then the model follows it):
@@ -67,7 +69,8 @@ RULE = (
     "{10,11,'SV2',30,'DV2',1001,1002,1003,777 unknown,'zz' unknown}; every numeric id is sent in a generated integer format "
     "(U1..U8, I1..I8). The generator follows an approximate table state to prefer defined/linked ids. After every op: ack "
     "code in the admissible set, refused => registries unchanged, accepted => registries equal the model, no dangling link, "
-    "reply bodies equal the model's; epilogue: enable all, S6F15 + trigger for every CEID. Non-trivial = history with >=1 "
+    "reply bodies equal the model's; epilogue when links remain: disable all + trigger (nothing sent), enable all + S6F15 "
+    "and trigger of every linked event. Non-trivial = history with >=1 "
     "deletion of a linked report, or a duplicate id inside one request, or a refused request after >=2 accepted ones; "
     "distinct by case hash."
 )
@@ -580,7 +583,7 @@ def link_situation(t, entries):
 
 def run_case(case, observe=None):
     ops = case["ops"]
-    stats = {"classes": set(), "accepted": 0, "nontrivial": False}
+    stats = {"classes": set(), "accepted": 0}
     cls = stats["classes"]
     with hsmsrig.make_world(case.get("sched", {})) as w:
         rig = build_rig(w)
@@ -877,7 +880,7 @@ def nontrivial(stats):
 def plan(tier, seed):
     quick = tier == "quick"
     shards = 16 if quick else 64
-    return [("gen", {"shard": i, "n": 70 if quick else 420, "max_ops": 15 if quick else 40}) for i in range(shards)]
+    return [("gen", {"shard": i, "n": 90 if quick else 250, "max_ops": 15 if quick else 40}) for i in range(shards)]
 
 
 def run_task(name, kw, ctx):
